@@ -1,5 +1,6 @@
 import SupervisorModel.Lemmas.Listener
 import SupervisorModel.Lemmas.Pool
+import SupervisorModel.Lemmas.PoolLedger
 /-
   C10 — event-listener protocol safety.  Property theorems only; helper lemmas are in
   Lemmas/Listener.lean.  The definitions unfolded there (`Sv.Gen.Listener.*`) are regenerated
@@ -297,5 +298,50 @@ theorem isolation (pi li : Nat) (f : Listener.S → Listener.S) (w : Pool.W) :
       k ≠ li → p'.procs[k]? = p.procs[k]?) := by
   obtain ⟨h1, h2⟩ := Pool.onListener_isolated pi li f w
   exact ⟨h1, fun p p' k a b c => (h2 p p' k a b c).1⟩
+
+/-- **never_disturbs_another_pool.**  `isolation` names the owner test; this is the statement without it.  In a
+    daemon whose listeners are distinct process objects (`Pool.Static`: pool names distinct, every listener its own
+    `Subprocess` object -- nothing is assumed about the listeners' *names*, which may coincide across pools), whatever
+    listener `li` of pool `pi` does -- a FAIL answer, a bad result line, any other bytes, its death while it holds an
+    event -- no other pool changes in any way: nothing is added to its buffer, its poolserial counter stands, its
+    listeners keep their state, their held event and their unwritten stdin bytes.  The proof needs `handle_rejected`
+    to recognise its own processes by object identity (generated `rejectedOwnerTest`; `Pool.Static.owner`). -/
+theorem never_disturbs_another_pool (pi li : Nat) (f : Listener.S → Listener.S) (w : Pool.W) (hs : Pool.Static w)
+    (j : Nat) (hj : j ≠ pi) : (Pool.onListener pi li f w).pools[j]? = w.pools[j]? := by
+  by_cases hli : ∃ p, w.pools[pi]? = some p ∧ li < p.procs.length
+  · obtain ⟨p, hp, hl⟩ := hli
+    exact (isolation pi li f w).1 j hj (fun q hq => (hs.owner pi li p hp hl).2 j hj q hq)
+  · unfold Pool.onListener
+    split
+    · rfl
+    · split
+      · rfl
+      · rename_i pool hpool
+        split
+        · rfl
+        · rename_i l hl
+          exact absurd ⟨pool, hpool, by
+            have := List.getElem?_eq_some_iff.mp hl
+            exact this.1⟩ hli
+
+/-- ... at every moment of every history of a freshly configured daemon (any pools with distinct section names, any
+    numbers of listeners, names shared or not) -/
+theorem never_disturbs_another_pool_ever (h : Bytes → HRes) (ps : List Pool.PoolSt) (hf : Pool.FreshPools ps)
+    (ops : List Pool.Op) (pi li : Nat) (f : Listener.S → Listener.S) (j : Nat) (hj : j ≠ pi) :
+    (Pool.onListener pi li f (Pool.exec h { pools := Pool.assignIds 0 ps } ops)).pools[j]? =
+      (Pool.exec h { pools := Pool.assignIds 0 ps } ops).pools[j]? :=
+  never_disturbs_another_pool pi li f _ (Pool.j_exec h 0 ops _ (Pool.j_fresh h ps hf 0)).st j hj
+
+/-- two pools whose listeners have the same name `l0`: listener 0.0 answers FAIL for the event it holds; pool 1 (not
+    subscribed to it, listener READY) is exactly as before -- the regression instance of seeded changes C09-2 / C10-5 -/
+example :
+    let ps : List Pool.PoolSt := [{ name := "a", bufSize := 3, subs := [.TICK_5], procs := [Listener.initial], names := ["l0"] },
+                                  { name := "b", bufSize := 3, subs := [.TICK_60], procs := [Listener.initial], names := ["l0"] }]
+    let ready : Bytes := [82, 69, 65, 68, 89, 10]
+    let w := Pool.exec strictHandler { pools := Pool.withDir (Pool.assignIds 0 ps) }
+      [.spawn 0 0 7 [], .pstate 0 0 .running, .spawn 1 0 8 [], .pstate 1 0 .running, .read 0 0 ready, .read 1 0 ready,
+       .notify .TICK_5 [], .transition 0]
+    let w' := Pool.step strictHandler w (.read 0 0 [82, 69, 83, 85, 76, 84, 32, 52, 10, 70, 65, 73, 76])
+    (w.pools.map (·.buffer), w'.pools.map (·.buffer)) = ([[], []], [[2], []]) := by decide +kernel
 
 end Sv.Props.C10
